@@ -94,6 +94,9 @@ impl Driver {
     }
 
     fn relabel_c09(&self, mut v: Violation) -> Violation {
+        if v.property == "HARNESS" {
+            return v;
+        }
         // C11 profile: admission through the heartbeat is the observation point of the header
         // rules; a mismatch between admitted blocks/headers and the model's header verdicts is
         // a C11 violation.
@@ -205,9 +208,12 @@ impl Driver {
             // C10: a rejected element (and everything after it in the reply, announced headers
             // included) has no effect: the internal view must be exactly the model's.
             self.w.check_bookkeeping().map_err(|mut v| {
-                v.kind = format!("state-after-reply:{}", v.kind);
-                v.property = "C10".into();
-                fix(self.relabel_c09(v))
+                if v.property != "HARNESS" {
+                    v.kind = format!("state-after-reply:{}", v.kind);
+                    v.property = "C10".into();
+                    v = self.relabel_c09(v);
+                }
+                fix(v)
             })?;
         }
         if self.w.is_active("C15") {
